@@ -56,6 +56,102 @@ theorem C20_escape_preserves_state (s : List Char) :
   ⟨runTok_data _ (fun x hx => (C20_escape_no_structural_char s x hx).1),
    runTok_attr _ (fun x hx => (C20_escape_no_structural_char s x hx).2.2.1)⟩
 
+theorem runTok_append (st : TState) (a b : List Char) : runTok st (a ++ b) = runTok (runTok st a) b := by
+  simp [runTok, List.foldl_append]
+
+/-- **The structure of a page does not depend on the request text spliced into it**: for any template text `pre` that
+leaves the tokenizer in a text node or inside a double-quoted attribute value (the only contexts the templates use,
+`C20_all_action_sites_safe`), and any remainder `post`, the tokenizer ends in the same state whatever string is
+substituted — and in the state it reaches when nothing is substituted at all. Unbounded in `pre`, `post` and both texts. -/
+theorem C20_page_structure_independent (pre post s₁ s₂ : List Char)
+    (hctx : runTok .data pre = .data ∨ runTok .data pre = .attrDQ) :
+    runTok .data (pre ++ htmlEscape s₁ ++ post) = runTok .data (pre ++ htmlEscape s₂ ++ post) ∧
+    runTok .data (pre ++ htmlEscape s₁ ++ post) = runTok .data (pre ++ post) := by
+  have key : ∀ s, runTok .data (pre ++ htmlEscape s ++ post) = runTok .data (pre ++ post) := by
+    intro s
+    rw [List.append_assoc, runTok_append, runTok_append, runTok_append .data pre post]
+    rcases hctx with h | h <;> rw [h]
+    · rw [(C20_escape_preserves_state s).1]
+    · rw [(C20_escape_preserves_state s).2]
+  exact ⟨(key s₁).trans (key s₂).symm, key s₁⟩
+
+/-- Several substitutions on one page (the templates splice up to six values): by induction over the list of
+(template text, request text) pieces, the final tokenizer state equals that of the template texts alone, provided each
+splice point sits in a text node or a double-quoted attribute value. -/
+def render : List (List Char × List Char) → List Char
+  | [] => []
+  | (t, v) :: r => t ++ htmlEscape v ++ render r
+
+def skeletonOf : List (List Char × List Char) → List Char
+  | [] => []
+  | (t, _) :: r => t ++ skeletonOf r
+
+def sitesSafe : TState → List (List Char × List Char) → Prop
+  | _, [] => True
+  | st, (t, _) :: r => (runTok st t = .data ∨ runTok st t = .attrDQ) ∧ sitesSafe (runTok st t) r
+
+theorem C20_many_substitutions_inert (ps : List (List Char × List Char)) (st : TState) (tail : List Char)
+    (h : sitesSafe st ps) :
+    runTok st (render ps ++ tail) = runTok st (skeletonOf ps ++ tail) := by
+  induction ps generalizing st with
+  | nil => rfl
+  | cons p r ih =>
+    obtain ⟨t, v⟩ := p
+    obtain ⟨hs, hr⟩ := h
+    simp only [render, skeletonOf, List.append_assoc]
+    rw [runTok_append, runTok_append st t]
+    have hv : runTok (runTok st t) (htmlEscape v ++ (render r ++ tail)) = runTok (runTok st t) (render r ++ tail) := by
+      rw [runTok_append]
+      rcases hs with e | e <;> rw [e]
+      · rw [(C20_escape_preserves_state v).1]
+      · rw [(C20_escape_preserves_state v).2]
+    rw [hv]
+    exact ih _ hr
+
+/-- A browser's decoding of the character references the escaper emits (the six it can produce). -/
+def decodeRefs : List Char → List Char
+  | '&' :: '#' :: '3' :: '4' :: ';' :: r => '"' :: decodeRefs r
+  | '&' :: 'a' :: 'm' :: 'p' :: ';' :: r => '&' :: decodeRefs r
+  | '&' :: '#' :: '3' :: '9' :: ';' :: r => '\'' :: decodeRefs r
+  | '&' :: '#' :: '4' :: '3' :: ';' :: r => '+' :: decodeRefs r
+  | '&' :: 'l' :: 't' :: ';' :: r => '<' :: decodeRefs r
+  | '&' :: 'g' :: 't' :: ';' :: r => '>' :: decodeRefs r
+  | c :: r => c :: decodeRefs r
+  | [] => []
+
+theorem decodeRefs_plain (c : Char) (r : List Char) (h : c ≠ '&') : decodeRefs (c :: r) = c :: decodeRefs r := by
+  rw [decodeRefs.eq_def]
+  split <;> simp_all
+
+/-- **Escaping is faithful**: what a browser displays (or reads back as an attribute value) after decoding the character
+references is exactly the request text — nothing is dropped, merged or reinterpreted, so one text cannot be made to
+display as another. NUL is excluded: the escaper replaces it by U+FFFD (first row of `escChar`). -/
+theorem C20_escape_faithful (s : List Char) (h : '\x00' ∉ s) : decodeRefs (htmlEscape s) = s := by
+  induction s with
+  | nil => rfl
+  | cons c t ih =>
+    have hc : c ≠ '\x00' := fun e => h (e ▸ List.mem_cons_self)
+    have ht : '\x00' ∉ t := fun m => h (List.mem_cons_of_mem _ m)
+    have e : htmlEscape (c :: t) = escChar c ++ htmlEscape t := by simp [htmlEscape]
+    rw [e]
+    unfold escChar
+    split
+    · contradiction
+    · split
+      · subst_vars; simp [decodeRefs, ih ht]
+      · split
+        · subst_vars; simp [decodeRefs, ih ht]
+        · split
+          · subst_vars; simp [decodeRefs, ih ht]
+          · split
+            · subst_vars; simp [decodeRefs, ih ht]
+            · split
+              · subst_vars; simp [decodeRefs, ih ht]
+              · split
+                · subst_vars; simp [decodeRefs, ih ht]
+                · rename_i h2 h3 h4 h5 h6 h7
+                  simp only [List.cons_append, List.nil_append]
+                  rw [decodeRefs_plain c _ h3, ih ht]
 /-- Tie (T1): every value-producing action of every template sso serves sits in a text node or inside a double-quoted
 attribute value that is not a URL / script / style attribute; both template files import `html/template`. -/
 theorem C20_all_action_sites_safe :
@@ -66,6 +162,10 @@ theorem C20_all_action_sites_safe :
 /-! ### Non-vacuity -/
 example : htmlEscape "<script>\"x\"&'+".toList = "&lt;script&gt;&#34;x&#34;&amp;&#39;&#43;".toList := by decide
 example : runTok .data "<b".toList = .other := by decide
+example : sitesSafe .data [("Hi ".toList, "<i>".toList), (" and ".toList, "\" onclick=\"x".toList)] ∧
+    runTok .data (render [("Hi ".toList, "<i>".toList), (" and ".toList, "\" onclick=\"x".toList)]) = .data := by
+  refine ⟨⟨?_, ?_, trivial⟩, ?_⟩ <;> decide
+example : decodeRefs (htmlEscape "<a href='x'>\"&+".toList) = "<a href='x'>\"&+".toList := by decide
 
 /-- Tie (T1): the handlers that put request-controlled text on a page or into JSON — call/branch/store skeletons regenerated from the source on every run; the expectations below are
 what the model in this file transliterates. A structural edit of any of these functions breaks this theorem and sends the
